@@ -237,7 +237,7 @@ inline Stats run_sharded(int nshards, const std::function<void(Worker &)> &body,
                          const std::function<void(const CrashInfo &, Stats &)> &onCrash, double deadline_abs = 0,
                          double case_limit_s = 20, const std::string &tmpdir = "/dev/shm") {
   Stats total;
-  struct Slot { pid_t pid = 0; Shared *sh = nullptr; std::string out, err; uint64_t resume = 0; int restarts = 0; };
+  struct Slot { pid_t pid = 0; Shared *sh = nullptr; std::string out, err; uint64_t resume = 0; int restarts = 0, timeouts = 0; };
   std::vector<Slot> slots(nshards);
   char tag[64]; snprintf(tag, sizeof tag, "vf%d_%ld", (int)getpid(), (long)(now_s() * 1000) % 100000000);
   auto launch = [&](int k) {
@@ -280,7 +280,8 @@ inline Stats run_sharded(int nshards, const std::function<void(Worker &)> &body,
     if (!s.sh->in_case) { fprintf(stderr, "ERROR: worker %d died outside a case (%s): %s\n", k, ci.how.c_str(), ci.stderr_tail.c_str()); exit(2); }
     total.add("worker_deaths");
     onCrash(ci, total);
-    s.resume = ci.idx; s.restarts++;
+    s.resume = ci.idx; s.restarts++; if (ci.how == "timeout") s.timeouts++;
+    if (s.timeouts > 4) { total.capped = true; total.add("shards_abandoned_after_5_timeouts"); live--; s.pid = 0; continue; }
     if (s.restarts > 60) { total.capped = true; total.add("shards_abandoned_after_60_crashes"); live--; s.pid = 0; continue; }
     launch(k);
   }
